@@ -28,26 +28,7 @@ META = {
 }
 
 MODULE = "KafkaVerif.Props.C10"
-SCENARIOS = ["balancers", "writer", "codecs", "readerfront", "reader", "readergroup", "conn", "transport"]
-
-# exported methods reached by a driver operation besides the one it is named after
-OP_ALSO = {
-    "gzip.roundtrip": ["compress/gzip.Codec.NewReader", "compress/gzip.Codec.NewWriter", "compress/gzip.Codec.Name"],
-    "snappy.roundtrip": ["compress/snappy.Codec.NewReader", "compress/snappy.Codec.NewWriter", "compress/snappy.Codec.Name"],
-    "lz4.roundtrip": ["compress/lz4.Codec.NewReader", "compress/lz4.Codec.NewWriter", "compress/lz4.Codec.Name"],
-    "zstd.roundtrip": ["compress/zstd.Codec.NewReader", "compress/zstd.Codec.NewWriter", "compress/zstd.Codec.Name"],
-    "Batch.Offset": ["Batch.HighWaterMark", "Batch.Throttle", "Batch.Partition"],
-    "Conn.Broker": ["Conn.LocalAddr", "Conn.RemoteAddr"],
-    "Conn.Read": ["Conn.ReadBatch", "Conn.ReadBatchWith"],
-    "Conn.ReadMessage": ["Conn.ReadBatch", "Conn.ReadBatchWith"],
-    "Batch.ReadMessage": ["Conn.ReadBatch", "Conn.ReadBatchWith"],
-    "Conn.ReadOffsets": ["Conn.ReadFirstOffset", "Conn.ReadLastOffset"],
-    "Conn.WriteMessages": ["Conn.WriteCompressedMessages"],
-    "Client.Produce": ["Transport.RoundTrip"], "Client.Fetch": ["Transport.RoundTrip"], "Client.Metadata": ["Transport.RoundTrip"],
-    "Client.ListOffsets": ["Transport.RoundTrip"],
-    "Reader.FetchMessage+CommitMessages": ["Reader.FetchMessage", "Reader.CommitMessages"],
-    "Reader.Stats": ["Reader.Offset", "Reader.Lag", "Reader.SetOffset", "Reader.Config"],
-}
+SCENARIOS = ["balancers", "writer", "codecs", "readerfront", "reader", "readergroup", "readerrebalance", "conn", "transport", "clientapis"]
 
 HDR = re.compile(r"^(Read|Write|Previous read|Previous write|Atomic read|Atomic write|Previous atomic read|Previous atomic write) at 0x[0-9a-f]+ by (?:goroutine \d+|main goroutine):")
 FRAME = re.compile(r"^\s+(\S+):(\d+)(?: \+0x[0-9a-f]+)?$")
@@ -168,7 +149,7 @@ def run(ctx):
 
         with concurrent.futures.ThreadPoolExecutor(max_workers=6 if thorough else 4) as ex:
             results = list(ex.map(one, jobs))
-        methods = {}
+        methods, opmap, round_ops = {}, {}, []
         for (s, sd, n, gmp), rc, out, err in results:
             reps = parse_reports(err)
             done = [l for l in out.split("\n") if l.startswith("done ")]
@@ -177,8 +158,15 @@ def run(ctx):
             for l in out.split("\n"):
                 if l.startswith("round "):
                     lines.append("%s\tran" % l)
-                    for m in l.split("ops=", 1)[1].split(","):
+                    ops_of_round = l.split("ops=", 1)[1].split(",")
+                    round_ops.append((s, set(ops_of_round)))
+                    for m in ops_of_round:
                         methods[m] = methods.get(m, 0) + 1
+                elif l.startswith("opmap "):
+                    _, o, ms = l.split(" ", 2)
+                    opmap[o] = ms.split(",")
+                elif l.startswith("panic ") or l.startswith("skipped "):
+                    ctx.notes.append("driver observation: " + l)
                 elif l.startswith("stuck ") or l.startswith("codec-mismatch"):
                     ctx.notes.append("driver observation: " + l)
             scen_info["%s seed=%d" % (s, sd)] = {"rounds": n, "reports": len(reps), "rc": rc,
@@ -204,12 +192,25 @@ def run(ctx):
                 seen.add(r["key"])
                 lines.append("%s\treported" % r["key"])
         ctx.coverage["methods_invoked"] = dict(sorted(methods.items()))
-        direct = {m.split("/")[0] for m in methods}
-        for m in list(direct):
-            direct |= set(OP_ALSO.get(m, []))
-        # methods reached indirectly by the scenarios (Writer→Client/Transport.RoundTrip, codecs through compress.Codec, Reader→Conn/Batch)
-        ctx.coverage["exported_methods_of_tracked_types"] = len(table.get("exported_methods") or [])
-        ctx.coverage["exported_methods_not_reached_by_driver_ops"] = sorted(set(table.get("exported_methods") or []) - direct)
+        # per-method reach table: in how many generated concurrent programs (rounds) was the exported method
+        # invoked — by an operation named after it or by one the driver declares (`opmap`) to call it
+        exported = table.get("exported_methods") or []
+        reach = {m: {"programs": 0, "scenarios": set()} for m in exported}
+        for scen, opset in round_ops:
+            hit = set()
+            for o in opset:
+                hit.add(o)
+                hit |= set(opmap.get(o, []))
+            for m in hit:
+                if m in reach:
+                    reach[m]["programs"] += 1
+                    reach[m]["scenarios"].add(scen)
+        ctx.coverage["exported_methods_of_tracked_types"] = len(exported)
+        ctx.coverage["method_reach"] = {m: {"programs": v["programs"], "scenarios": sorted(v["scenarios"])} for m, v in sorted(reach.items())}
+        unreached = sorted(m for m, v in reach.items() if v["programs"] == 0)
+        ctx.coverage["exported_methods_not_reached_by_driver_ops"] = unreached
+        if unreached:
+            ctx.notes.append("exported methods of tracked types not invoked by any generated program in this run: " + ", ".join(unreached))
     dis = ctx.correspond(lines, orc, "race detector reports ↔ Gen/Accesses.lean (lockset table)",
                          nontrivial=lambda op, impl: op.startswith("round ")) if orc and lines else []
     # ---- coverage
